@@ -390,17 +390,22 @@ pub mod io {
         g.as_ref()?.get(&fd).cloned()
     }
 
-    /// Guard whose drop records the end event of an operation
-    pub struct OpGuard(Option<(Arc<Session>, u64, Kind, PathBuf, u64, u64)>);
+    /// Guard whose drop records the end event of an operation.
+    /// A sync counts as performed only if `performed()` was called (the call site does that right after the system call
+    /// returned Ok): a guard dropped without it - the call failed, or was never made - ends with the `injected` (= failed) mark
+    pub struct OpGuard(Option<(Arc<Session>, u64, Kind, PathBuf, u64, u64)>, bool);
     impl OpGuard {
         fn none() -> Self {
-            OpGuard(None)
+            OpGuard(None, true)
+        }
+        pub fn performed(&mut self) {
+            self.1 = true;
         }
     }
     impl Drop for OpGuard {
         fn drop(&mut self) {
             if let Some((s, op, kind, path, offset, len)) = self.0.take() {
-                s.log(op, false, kind, &path, None, offset, len, None, false);
+                s.log(op, false, kind, &path, None, offset, len, None, !self.1);
             }
         }
     }
@@ -413,7 +418,7 @@ pub mod io {
             s.log(op, false, kind, path, None, offset, fp.short.unwrap_or(0).min(len), None, true);
             return Err(IOError::from_raw_os_error(fp.errno));
         }
-        Ok(OpGuard(Some((s.clone(), op, kind, path.to_path_buf(), offset, len))))
+        Ok(OpGuard(Some((s.clone(), op, kind, path.to_path_buf(), offset, len)), kind != Kind::Sync))
     }
 
     /// Called before a file is opened (`create == true` when it may be created)
@@ -466,7 +471,7 @@ pub mod io {
                 s.log(op, false, Kind::Write, &path, None, offset, n as u64, None, true);
                 return Err(IOError::from_raw_os_error(fp.errno));
             }
-            return Ok(OpGuard(Some((s, op, Kind::Write, path, offset, buf.len() as u64))));
+            return Ok(OpGuard(Some((s, op, Kind::Write, path, offset, buf.len() as u64)), true));
         }
         Ok(OpGuard::none())
     }
